@@ -6,6 +6,7 @@ import (
 	"fmt"
 	"html"
 	"math/rand/v2"
+	"sort"
 	"strings"
 	"testing"
 	"testing/synctest"
@@ -52,7 +53,9 @@ func c08Gen(rng *rand.Rand, idx int) c08Scenario {
 			r.Method, r.Path, r.Body = "GET", "/x", 0
 			r.At = c.At - time.Duration(1+rng.IntN(5))*time.Millisecond + OffArrival
 			r.D2 = time.Duration(1+rng.IntN(12))*time.Millisecond + OffHook
-			sc.Reqs = append(sc.Reqs, tlReq{ID: fmt.Sprintf("s%d", i), Method: "GET", Path: "/slow", At: r.At - 7*time.Millisecond, Lat: time.Duration(20+rng.IntN(50))*time.Millisecond + OffTarget})
+			if rng.IntN(2) == 0 {
+				sc.Reqs = append(sc.Reqs, tlReq{ID: fmt.Sprintf("s%d", i), Method: "GET", Path: "/slow", At: r.At - 7*time.Millisecond, Lat: time.Duration(20+rng.IntN(50))*time.Millisecond + OffTarget})
+			} // otherwise the targets are idle: the command's drain is over at once, well before the claim
 		}
 		sc.Reqs = append(sc.Reqs, r)
 	}
@@ -196,6 +199,11 @@ func c08Overlap(t *testing.T, run *Run, idx int, rng *rand.Rand) {
 	for i := 0; i < 4; i++ {
 		w.GoReq(tResume+time.Duration(i+1)*300*time.Millisecond+OffArrival, Req{ID: fmt.Sprintf("after%d", i), Host: "c08.example", Path: "/x"})
 	}
+	// requests that arrive when all of this has settled, before the resume: held and then forwarded
+	// (last command a pause) or answered 503 at once (a stop)
+	for i := 0; i < 3; i++ {
+		w.GoReq(T+4*time.Second+time.Duration(i)*100*time.Millisecond+OffArrival, Req{ID: fmt.Sprintf("during%d", i), Host: "c08.example", Path: "/x"})
+	}
 	w.Wait()
 	fail := func(sig, format string, a ...any) {
 		run.Violate(sig, fmt.Sprintf(format, a...), map[string]any{"idx": idx, "commands": kinds, "slow_request": lat, "targets": nt}, func() []string { return w.Trace(200) })
@@ -215,6 +223,16 @@ func c08Overlap(t *testing.T, run *Run, idx int, rng *rand.Rand) {
 		return
 	}
 	for _, r := range w.RespLog() {
+		if strings.HasPrefix(r.ID, "during") {
+			if kinds[len(kinds)-1] == "pause" && (r.Status != 200 || r.Target == "" || !near(r.Done, tResume)) {
+				fail("held-request-not-forwarded:overlapping-drains", "%v were issued while a slow request kept the first one's drain open; request %s arrived at %v (paused) and got status=%d target=%q at %v, expected to be forwarded by the resume at %v", kinds, r.ID, r.Sent, r.Status, r.Target, r.Done, tResume)
+				return
+			}
+			if kinds[len(kinds)-1] == "stop" && (r.Status != 503 || r.Done-r.Sent > Eps) {
+				fail("stopped-request-not-refused:overlapping-drains", "%v were issued while a slow request kept the first one's drain open; request %s arrived at %v (stopped) and got status=%d at %v", kinds, r.ID, r.Sent, r.Status, r.Done)
+				return
+			}
+		}
 		if strings.HasPrefix(r.ID, "after") && (r.Status != 200 || r.Target == "") {
 			fail("not-forwarded-after-resume:overlapping-drains", "%v were issued while a slow request kept the first one's drain open; after resume at %v request %s got status=%d target=%q", kinds, tResume, r.ID, r.Status, r.Target)
 			return
@@ -348,7 +366,13 @@ func c08Run(t *testing.T, run *Run, sc c08Scenario) {
 	for _, r := range sc.Reqs {
 		req := Req{ID: r.ID, Method: r.Method, Host: "c08.example", Path: r.Path, Body: tlBody(r.ID, r.Body), Lat: r.Lat}
 		if r.D2 > 0 {
-			w.SetReqDelay(r.ID, "service.gate.passed", r.D2)
+			// the request lingers either right after the gate or right before its claim (whatever the
+			// code does in between - nothing of duration - is then on the far side of the delay)
+			if len(r.ID)%2 == 0 {
+				w.SetReqDelay(r.ID, "service.gate.passed", r.D2)
+			} else {
+				w.SetReqDelay(r.ID, "lb.claiming", r.D2)
+			}
 		}
 		if r.Cookie {
 			req.Hdr = [][2]string{{"Cookie", "kamal-rollout=u1"}}
@@ -450,6 +474,40 @@ func c08Run(t *testing.T, run *Run, sc c08Scenario) {
 		if st.State == "stopped" && atTarget[r.ID] {
 			fail("forwarded-while-stopped", "request %s arrived while the service was stopped and reached a target", r.ID)
 			return
+		}
+	}
+	// nothing reaches a target between the return of a stop (pause) and the next resume, whenever
+	// the request came in (health-check requests are answered by the proxy and never get there)
+	{
+		type span struct {
+			kind     string
+			from, to time.Duration
+		}
+		var spans []span
+		cmds := append([]*CmdRec{}, w.Cmds...)
+		sort.Slice(cmds, func(i, j int) bool { return cmds[i].Issue < cmds[j].Issue })
+		for i, c := range cmds {
+			if (c.Name != "stop" && c.Name != "pause") || c.Err != "" {
+				continue
+			}
+			sp := span{kind: c.Name, from: c.Ret, to: time.Duration(1<<62 - 1)}
+			for _, d := range cmds[i+1:] {
+				if d.Name == "resume" {
+					sp.to = d.Issue
+					break
+				}
+			}
+			spans = append(spans, sp)
+		}
+		for _, ft := range w.Targets {
+			for _, q := range ft.ReqLog() {
+				for _, sp := range spans {
+					if q.Recv > sp.from+Step && q.Recv < sp.to {
+						fail("forwarded-while-"+map[string]string{"stop": "stopped", "pause": "paused"}[sp.kind], "request %s reached target %s at %v: %s had returned at %v and the next resume was issued at %v", q.ID, ft.Name, q.Recv, sp.kind, sp.from, sp.to)
+						return
+					}
+				}
+			}
 		}
 	}
 	run.Count("requests_checked", len(sc.Reqs))
